@@ -124,10 +124,9 @@ func loadAndCheck(raw []byte, m DebModel, members []ArMember, viaFile bool) (*lo
 		if !ok || e == nil {
 			return nil, errf("ArContent lacks member %q", mem.Name)
 		}
-		if _, err := e.Data.Seek(0, io.SeekStart); err != nil {
-			return nil, errf("member %q: %v", mem.Name, err)
-		}
-		b, err := io.ReadAll(e.Data)
+		// read through ReadAt: the member's own read offset may be in use by a
+		// decompressor that reads ahead in the background (zstd)
+		b, err := io.ReadAll(io.NewSectionReader(e.Data, 0, e.Data.Size()))
 		if err != nil || !bytes.Equal(b, mem.Data) {
 			return nil, errf("ArContent[%q] yields %d bytes (err %v), the member has %d", mem.Name, len(b), err, len(mem.Data))
 		}
